@@ -303,6 +303,20 @@ func (p *pipeComp) Generate(rng *rand.Rand, n int, emit func(Case)) {
 			}
 			ops = append(ops, Op{Name: "pipe run", Ints: []int64{1000 + int64(rng.Intn(1000)), int64(rng.Intn(1000000000))}, Bytes: [][]byte{line}})
 		}
+		if i%4 == 3 {
+			// records of one layout above the pooling threshold (their fields point into pooled backing buffers that the next
+			// record overwrites in place), differing only in same-length tokens: anything remembered by reference shows
+			ops = ops[:3]
+			pad := strings.Repeat("p", 1100+rng.Intn(300))
+			for k := 0; k < nl; k++ {
+				line := mkLine([]int{163, 134, 111, 190}[rng.Intn(4)],
+					"2019-08-15T15:50:46.866915"+[]string{"+03:00", "-08:00", "+05:30", "-03:30"}[rng.Intn(4)],
+					[]string{"hostA", "hostB", "hostC"}[rng.Intn(3)], "app"+fmt.Sprint(rng.Intn(3)), fmt.Sprint(10000+rng.Intn(89999)),
+					[]string{"src", "err", "web"}[rng.Intn(3)], []string{"[MyClass1 ]", "[MyClass2 ]", "[YrClass1 ]"}[rng.Intn(3)],
+					[]string{"alpha", "bravo", "delta"}[rng.Intn(3)]+" "+pad)
+				ops = append(ops, Op{Name: "pipe run", Ints: []int64{1000 + int64(rng.Intn(1000)), int64(rng.Intn(1000000000))}, Bytes: [][]byte{line}})
+			}
+		}
 		meta := "sentinel"
 		if strings.Contains(stepsYAML(steps), "type: drop") {
 			meta = "" // the program may filter the sentinel
